@@ -126,6 +126,20 @@ EXTRA3 = {
  "C19": " Also: the lock-order graph includes generic instantiations.",
 }
 
+EXTRA4 = {
+ "C01": " Also: State.idleCh is armed only after a successful flush that holds nothing back (nothing queued can be overtaken by live pushes).",
+ "C02": " Also: updates returned by a call are consumed on every path to a success return; every function calling tx.RemoveMessagesFromMailbox / AddMessagesToMailbox / DeleteMailboxWithRemoteID builds the matching announcement.",
+ "C03": " Also: no function working inside a write transaction reads the session's copy of a message's flags (writes are decided from the index).",
+ "C06": " Also: no success return of the update appliers hangs on strings.EqualFold of two data values (a case-only rename is a change).",
+ "C07": " Also: every success return of the MessageDeleted transaction passes MarkMessageAsDeleted* unless the message is unknown.",
+ "C11": " Also: every error return of command.Parser.Parse after the tag is known carries the tag; the encoding returned by ianaindex is nil-tested before use.",
+ "C12": " Also: in the parsing packages every element access x[i-k] has i-k >= 0 proved from the dominating conditions (one function tabled with the invariant it relies on).",
+ "C13": " Also: rfc822.Split locates the end of the header by single-byte (line) searches only and returns a partition b[0:k], b[k:].",
+ "C14": " Also: a mailbox deletion by the connector always clears the deleted subscription of that name.",
+ "C19": " Also: plain blocking sends in the session package occur only on the response and event channels; every other send sits in a select with a receive (shutdown) case.",
+ "C20": " Also: MessageHashesMap.Erase leaves its loop over the ids only by exhaustion.",
+}
+
 for i in ids:
     if i in impl and i in T:
         lt, ln, tech, ref = T[i]
@@ -136,7 +150,7 @@ for i in ids:
             "evidence_file": f"evidence/{i}.json",
             "replay_cmd_template": "./bin/verifcheck -replay {path}",
             "engine": "verifcheck",
-            "level_claimed": {"category": "other", "text": lt + EXTRA.get(i, "") + EXTRA3.get(i, ""), "design_ref": ref},
+            "level_claimed": {"category": "other", "text": lt + EXTRA.get(i, "") + EXTRA3.get(i, "") + EXTRA4.get(i, ""), "design_ref": ref},
             "level_note": ln,
             "technique": tech,
         })
